@@ -1,7 +1,7 @@
 CONSTANTS
   Codecs = {"cachecontrol", "basic", "authparam", "set"}
   Law = "inv"
-  Lens <- LenQ
+  Lens <- LenXT
   Items <- ItemsQ
 INIT Init
 NEXT Next
